@@ -425,7 +425,7 @@ def run_signs(ctx, only=None):
                         if z is None:
                             continue
                         tol = math.sqrt(common.EPS[dtype]) * (x.double().abs() + y.double().abs()).amax(dim=-1, keepdim=True) + 1e-300   # internal cancellation
-                        if bool(((x.double() + y.double() - z.double()).abs() > tol).any()):
+                        if not bool(((x.double() + y.double() - z.double()).abs() <= tol).all()):
                             ctx.fail(dict(case, pattern="c = c+ + c-"), f"signs: gradients of {name} on {g} for the non-negative and the non-positive part of "
                                                                         f"a cotangent (each with exact zeros) do not add up to the gradient for the cotangent ({dtype})")
                             break
@@ -562,7 +562,7 @@ def tie_values(op, g, dtype, ltypes, n):
     pi_ = _fl(math.pi, D)
     phis = [[0.05, 0.0, 0.0], _with_norm(u1, _fl(0.05, D), D), [eps, 0.0, 0.0], [0.3, 0.3, 0.3], _with_norm(u2, eps, D), [0.0, 0.0, -0.05],
             [pi_ / 2, 0.0, 0.0], [0.0, -eps, 0.0], _with_norm(u2, 0.3, D), [0.0, 0.0, 0.0], [0.0, 0.0, pi_], _with_norm(u1, 1.0, D)]
-    sig_mode = ["+th", "-th", "+th", "0", "-th", "+th", "th2", "-th", "+th", "0", "0.05", "-th"]
+    sig_mode = ["+th", "-th", "+th", "eps", "-th", "+th", "th2", "-th", "+th", "0", "0.05", "-eps"]      # "eps": |sigma| == eps alone
 
     def group_row(i):
         q = quats[i % len(quats)]
@@ -595,7 +595,7 @@ def tie_values(op, g, dtype, ltypes, n):
         v += phi
         if g in ("RxSO3", "Sim3"):
             m = sig_mode[i % len(sig_mode)]
-            sg = {"+th": th, "-th": -th, "0": 0.0, "th2": _fl(th / 2, D), "0.05": 0.05}[m]      # |sigma| == theta bit for bit
+            sg = {"+th": th, "-th": -th, "0": 0.0, "th2": _fl(th / 2, D), "0.05": 0.05, "eps": eps, "-eps": -eps}[m]      # |sigma| == theta bit for bit
             if g == "Sim3" and kind in ("Exp", "Retr") and abs(sg) > 0.3:
                 sg = math.copysign(0.25, sg)
             v.append(sg)
